@@ -1,4 +1,5 @@
 import BarterModel.Lemmas.Audit
+import BarterModel.Lemmas.KernelsAgree.AuditSeqSM
 /-!
 # C10 — Audit stream is gap-free and sufficient to replicate engine state
 
@@ -620,5 +621,27 @@ example :
        (.update .other, askNone)] = [1, 1, 1] := by decide +kernel
 
 end Rest
+
+/-- **Tie to the source by translation: the audit sequence.** `Sequence::{value, fetch_add}` (barter/src/lib.rs),
+`EngineMeta`, `Engine::{new, time, reset_metadata}`, `process_with_audit`, the trait `Processor` (barter/src/engine/mod.rs),
+`EngineClock` (clock.rs), `EngineContext`, `AuditTick`, the trait `Auditor` and `impl Auditor for Engine` (`audit`,
+`audit_snapshot`; barter/src/engine/audit/{context,mod}.rs), `StateReplicaManager::{new, validate_and_update_context}`
+(state_replica.rs) are regenerated from the current source by `tools/rust2lean_sm.py` on every run
+(`Generated/Machines4.lean`, group `audit_seq`; traits are records of their methods, `&mut self` is state passing,
+`Audit::from(kind)` an explicit conversion parameter, `EngineState` an abstract type parameter). For ALL engines,
+clocks, events, processors and replica states: `fetch_add` returns the current value and stores the successor; `audit`
+stamps `From::from(kind)` with the engine's current sequence and the clock's time and advances `meta.sequence` by one,
+changing nothing else; `process_with_audit` is "process, then audit the output of that process on the engine that
+process left" for every `Processor` / `Auditor` pair, and with the engine's own `Auditor` impl it REFINES the model's
+`processWithAudit` (the definition `one_record_per_event`, `consecutive`, `records_carry_events`, `terminal_last` are
+about) whenever the untranslated `Engine::process` is simulated by the model's `process` and leaves `meta.sequence`
+alone (`SimProcess`, the one hypothesis, on a parameter); a new engine starts at sequence 0, a new replica at its
+snapshot's sequence; and `validate_and_update_context` after `run`'s duplicate test decides skipped / error / applied
+exactly as the model's `Replica.step` (`duplicate_skipped`, `gap_rejected`, `replica_accepts_engine_record`), without
+hypothesis: the `u64` subtraction `next.sequence - 1` cannot underflow behind that test. The statement is that of
+`KernelsAgree.AuditSeqSM.audit_seq_agrees` (Lemmas/KernelsAgree/AuditSeqSM.lean). -/
+theorem audit_sequence_agrees_with_source :
+    type_of% BarterModel.KernelsAgree.AuditSeqSM.audit_seq_agrees :=
+  BarterModel.KernelsAgree.AuditSeqSM.audit_seq_agrees
 
 end BarterModel.Props.C10
